@@ -20,6 +20,7 @@ import (
 	"unsafe"
 
 	"github.com/whatap/golib/config"
+	"github.com/whatap/golib/config/conffile"
 	"github.com/whatap/golib/logger"
 	"github.com/whatap/golib/logger/logfile"
 	"github.com/whatap/golib/util/dateutil"
@@ -94,15 +95,17 @@ func (m mapConf) GetKeys() []string {
 	sort.Strings(k)
 	return k
 }
-func (m mapConf) GetValue(key string) string { return m[key] }
+// A value is taken without the blanks around it and an empty value counts as not set - the
+// contract of the production configuration object (conffile.FileConfig), restated here.
+func (m mapConf) GetValue(key string) string { return strings.TrimSpace(m[key]) }
 func (m mapConf) GetValueDef(key, def string) string {
-	if v, ok := m[key]; ok && v != "" {
+	if v := m.GetValue(key); v != "" {
 		return v
 	}
 	return def
 }
 func (m mapConf) GetBoolean(key string, def bool) bool {
-	if v, ok := m[key]; ok {
+	if v := m.GetValue(key); v != "" {
 		if b, err := strconv.ParseBool(v); err == nil {
 			return b
 		}
@@ -110,7 +113,7 @@ func (m mapConf) GetBoolean(key string, def bool) bool {
 	return def
 }
 func (m mapConf) GetInt(key string, def int) int32 {
-	if v, ok := m[key]; ok {
+	if v := m.GetValue(key); v != "" {
 		if n, err := strconv.ParseInt(v, 10, 32); err == nil {
 			return int32(n)
 		}
@@ -119,7 +122,7 @@ func (m mapConf) GetInt(key string, def int) int32 {
 }
 func (m mapConf) GetIntSet(key, def, deli string) []int32 { return nil }
 func (m mapConf) GetLong(key string, def int64) int64 {
-	if v, ok := m[key]; ok {
+	if v := m.GetValue(key); v != "" {
 		if n, err := strconv.ParseInt(v, 10, 64); err == nil {
 			return n
 		}
@@ -135,6 +138,11 @@ func (m mapConf) ToString() string                                            { 
 func (m mapConf) String() string                                              { return m.ToString() }
 
 // ---- scenario ------------------------------------------------------------------------------
+
+const (
+	viaFileDirect   = "ApplyConfig(conffile.FileConfig of <home>/whatap.conf)"
+	viaFileObserver = "conffile.FileConfig loads <home>/whatap.conf and runs its ConfigObserver"
+)
 
 var rankName = [4]string{"debug", "info", "warn", "error"}
 var rankConst = [4]int{logger.LOG_LEVEL_DEBUG, logger.LOG_LEVEL_INFO, logger.LOG_LEVEL_WARN, logger.LOG_LEVEL_ERROR}
@@ -170,6 +178,10 @@ type scn struct {
 	applyVia  string   // ApplyConfig | ConfigObserver.Run
 	withCtx   bool     // the (inert) WithContext option is passed too
 	omitted   []string // options / keys left out because the drawn value is the documented default
+	// how each configuration value was written (key -> exact text / class of spelling), spell.go
+	confText  map[string]string
+	confClass map[string]string
+	confFile  string // content of the whatap.conf the configuration was read from (FileConfig routes)
 }
 
 // curSec is the section whose cases are running (sections run one after another).
@@ -249,7 +261,7 @@ func newScn(c *vlib.Ctx, r *vlib.Rand) *scn {
 	if s.id == "whatap" && s.oname == "boot" && s.rc.Chance(1, 2) {
 		s.namesVia = "defaults (option omitted)"
 	}
-	s.applyVia = []string{"ApplyConfig", "ApplyConfig", "ConfigObserver.Run"}[s.rc.Intn(3)]
+	s.applyVia = []string{"ApplyConfig", "ApplyConfig", "ConfigObserver.Run", viaFileDirect, viaFileObserver}[s.rc.Intn(5)]
 	s.withCtx = s.rc.Chance(1, 5)
 	return s
 }
@@ -323,27 +335,75 @@ func (s *scn) start() {
 	if s.useApply {
 		s.fl.VerifCycle()
 		conf := mapConf{}
+		s.confText, s.confClass = map[string]string{}, map[string]string{}
+		put := func(key, text, class string) {
+			conf[key], s.confText[key], s.confClass[key] = text, text, class
+		}
+		// every value is written in a drawn spelling that means exactly the drawn setting (spell.go)
 		if !omit("log_rotation_enabled", s.rot) {
-			conf["log_rotation_enabled"] = strconv.FormatBool(s.rot)
+			t, cl := spellBool(rc, s.rot, true)
+			if modelBool(t, true) != s.rot {
+				panic(fmt.Sprintf("worker bug: log_rotation_enabled=%q does not mean %v", t, s.rot))
+			}
+			put("log_rotation_enabled", t, cl)
 		}
 		if !omit("log_keep_days", s.keep == 7) {
-			conf["log_keep_days"] = strconv.Itoa(s.keep)
+			t, cl := spellInt(rc, s.keep, 7)
+			if modelInt(t, 7) != s.keep {
+				panic(fmt.Sprintf("worker bug: log_keep_days=%q does not mean %d", t, s.keep))
+			}
+			put("log_keep_days", t, cl)
 		}
 		if !omit("_log_interval", s.interval == 10) {
-			conf["_log_interval"] = strconv.Itoa(s.interval)
+			t, cl := spellInt(rc, s.interval, 10)
+			if modelInt(t, 10) != s.interval {
+				panic(fmt.Sprintf("worker bug: _log_interval=%q does not mean %d", t, s.interval))
+			}
+			put("_log_interval", t, cl)
 		}
 		if !omit("log_level", s.level == 2) {
-			conf["log_level"] = rankName[s.level]
+			t, cl := spellLevel(rc, s.level)
+			if modelLevel(t) != s.level {
+				panic(fmt.Sprintf("worker bug: log_level=%q does not mean %s", t, rankName[s.level]))
+			}
+			put("log_level", t, cl)
 		}
 		if !omit("log_stdout_enabled", !s.stdout) {
-			conf["log_stdout_enabled"] = strconv.FormatBool(s.stdout)
+			t, cl := spellBool(rc, s.stdout, false)
+			if modelBool(t, false) != s.stdout {
+				panic(fmt.Sprintf("worker bug: log_stdout_enabled=%q does not mean %v", t, s.stdout))
+			}
+			put("log_stdout_enabled", t, cl)
 		}
-		if s.applyVia == "ConfigObserver.Run" {
+		switch s.applyVia {
+		case "ConfigObserver.Run":
 			// the production route of a configuration change: the observer hands it to its listeners
 			obs := config.NewConfigObserver()
 			obs.Add("FileLogger-under-test", s.fl)
 			obs.Run(conf)
-		} else {
+		case viaFileDirect, viaFileObserver:
+			// the production configuration object: the values are written into <home>/whatap.conf,
+			// read by conffile.FileConfig and handed over by it
+			for _, k := range conf.GetKeys() {
+				s.confFile += confLine(rc, k, conf[k])
+			}
+			if s.confFile == "" {
+				s.confFile = "# nothing set\n"
+			}
+			if err := os.WriteFile(filepath.Join(s.home, "whatap.conf"), []byte(s.confFile), 0o644); err != nil {
+				panic(err)
+			}
+			if s.applyVia == viaFileObserver {
+				obs := config.NewConfigObserver()
+				obs.Add("FileLogger-under-test", s.fl)
+				fc := conffile.VerifNew(conffile.WithHomePath(s.home), conffile.WithConfigObserver(obs)) // loads the file, runs the observer
+				fc.VerifStop()
+			} else {
+				fc := conffile.VerifNew(conffile.WithHomePath(s.home))
+				fc.VerifStop()
+				s.fl.ApplyConfig(fc)
+			}
+		default:
 			s.fl.ApplyConfig(conf)
 		}
 		s.fl.VerifCycle()
@@ -386,6 +446,18 @@ func (s *scn) recordConfig() {
 	for _, o := range s.omitted {
 		c.SetAdd("defaults_left_unset", o)
 	}
+	for k, cl := range s.confClass {
+		c.SetAdd("config_value_spellings_seen", k+": "+cl)
+		if k == "log_level" {
+			c.SetAdd("level_name_spellings_seen", rankName[s.level]+" as "+cl)
+			if cl != "lower" {
+				c.Count("scenarios_with_level_name_not_plain_lower_case", 1)
+			}
+		}
+		if (k == "log_rotation_enabled" || k == "log_stdout_enabled") && cl != "lower" {
+			c.Count("scenarios_with_boolean_not_plain_lower_case", 1)
+		}
+	}
 	if s.withCtx {
 		c.Count("scenarios_with_context_option", 1)
 	}
@@ -426,6 +498,16 @@ func (s *scn) desc() map[string]interface{} {
 	}
 	if s.useApply {
 		m["config_applied_by"] = s.applyVia
+		if s.confText != nil {
+			w := map[string]string{}
+			for k, t := range s.confText {
+				w[k] = fmt.Sprintf("%q (%s)", t, s.confClass[k])
+			}
+			m["config_values_as_written"] = w
+		}
+		if s.confFile != "" {
+			m["whatap_conf"] = s.confFile
+		}
 	}
 	if len(s.omitted) > 0 {
 		m["left_unset_as_default"] = s.omitted
